@@ -283,13 +283,46 @@ func (s *stSess) basicOp(w []string, line string, emit func(string, string), fai
 		emit("dump", mv.dump())
 		mv.judgeStructure(fail)
 	case "compact", "compact-none":
-		mv.compact(kvWords(w[1:]), emit, fail)
+		s.compactOp(mv, kvWords(w[1:]), emit, fail)
 	case "dump":
 		// dumps are emitted automatically after structural ops
 	default:
 		return false
 	}
 	return true
+}
+
+// compactOp: one production compaction (mvSess.compact: picker, runCompactDef, C12/C13/C14
+// oracles). A read changed by a compaction that jumps over a non-empty level — a state only an
+// incremental StreamWriter run creates: tables at prevLevel-1, above levelTargets().baseLevel —
+// is reported under its own tag (finding F17).
+func (s *stSess) compactOp(mv *mvSess, kv map[string]string, emit func(string, string), fail func(string, string)) {
+	var occ []bool
+	for _, lvl := range badger.VerifLevels(mv.db) {
+		occ = append(occ, len(lvl) > 0)
+	}
+	thisL, nextL := -1, -1
+	emit2 := func(op, out string) {
+		if strings.HasPrefix(op, "compact ") {
+			k := kvWords(strings.Fields(op)[1:])
+			thisL, nextL = kvInt(k, "this", -1), kvInt(k, "next", -1)
+		}
+		emit(op, out)
+	}
+	fail2 := func(tag, msg string) {
+		skipped := -1
+		for i := thisL + 1; i < nextL && i < len(occ); i++ {
+			if occ[i] {
+				skipped = i
+			}
+		}
+		if strings.HasPrefix(tag, "C12-read") && thisL >= 0 && skipped >= 0 {
+			fail("F17:compaction-skips-stream-written-level", fmt.Sprintf("level %d -> %d compaction with level %d non-empty (tables put there by StreamWriter.PrepareIncremental, above the base level): %s", thisL, nextL, skipped, msg))
+			return
+		}
+		fail(tag, msg)
+	}
+	mv.compact(kv, emit2, fail2)
 }
 
 // commitTxn commits and records the versions in the history oracle; returns the output word(s).
@@ -719,6 +752,116 @@ func (s *stSess) doStream(w []string, line string, emit func(string, string), fa
 	}
 }
 
+// stream-race numgo=N: the production Orchestrate, free running, while another goroutine commits
+// sum-preserving transfers between accounts. Nothing about the interleaving is controlled, so
+// the op is the last of its session and its output is just "ok"; what is judged: all producers
+// read at one timestamp and the delivered balances add up (they do not always: finding F7).
+func (s *stSess) doStreamRace(w []string, line string, emit func(string, string), fail func(string, string)) {
+	mv := s.curMv()
+	kv := kvWords(w[1:])
+	emit(line, "ok")
+	if mv.managed {
+		return
+	}
+	const nAcct, start = 256, 1000
+	acct := func(i int) []byte { return []byte(fmt.Sprintf("acct%04d", i)) }
+	enc := func(v int) []byte { return []byte(strconv.Itoa(v)) }
+	err := mv.db.Update(func(txn *badger.Txn) error {
+		for i := 0; i < nAcct; i++ {
+			if err := txn.Set(acct(i), enc(start)); err != nil {
+				return err
+			}
+		}
+		return nil
+	})
+	if err != nil {
+		return
+	}
+	_ = badger.VerifFlush(mv.db) // several blocks => several key ranges
+	stop := make(chan struct{})
+	var wg sync.WaitGroup
+	commits := 0
+	wg.Add(1)
+	go func() {
+		defer wg.Done()
+		rng := rand.New(rand.NewSource(int64(kvInt(kv, "seed", 1))))
+		for {
+			select {
+			case <-stop:
+				return
+			default:
+			}
+			i, j := rng.Intn(nAcct), rng.Intn(nAcct)
+			if i == j {
+				continue
+			}
+			_ = mv.db.Update(func(txn *badger.Txn) error {
+				get := func(k []byte) int {
+					it, err := txn.Get(k)
+					if err != nil {
+						return 0
+					}
+					v, _ := it.ValueCopy(nil)
+					n, _ := strconv.Atoi(string(v))
+					return n
+				}
+				a, b := get(acct(i)), get(acct(j))
+				if err := txn.Set(acct(i), enc(a-1)); err != nil {
+					return err
+				}
+				return txn.Set(acct(j), enc(b+1))
+			})
+			commits++
+		}
+	}()
+	st := mv.db.NewStream()
+	st.NumGo = kvInt(kv, "numgo", 8)
+	st.Prefix = []byte("acct")
+	st.LogPrefix = "verif"
+	rts := map[uint64]bool{}
+	var mu sync.Mutex
+	st.ChooseKey = func(item *badger.Item) bool {
+		mu.Lock()
+		rts[badger.VerifItemReadTs(item)] = true
+		mu.Unlock()
+		return true
+	}
+	total, keys := 0, 0
+	seen := map[string]bool{}
+	st.Send = func(buf *z.Buffer) error {
+		list, err := badger.BufferToKVList(buf)
+		if err != nil {
+			return err
+		}
+		for _, x := range list.Kv {
+			if seen[string(x.Key)] {
+				continue // older versions (NumVersionsToKeep > 1)
+			}
+			seen[string(x.Key)] = true
+			n, _ := strconv.Atoi(string(x.Value))
+			total += n
+			keys++
+		}
+		return nil
+	}
+	rerr := st.Orchestrate(context.Background())
+	close(stop)
+	wg.Wait()
+	badger.VerifSyncMarks(mv.db)
+	s.st.Inc(fmt.Sprintf("stream-race:distinct-read-ts=%d", len(rts)))
+	if rerr != nil {
+		fail("C25-race", "Orchestrate failed: "+rerr.Error())
+		return
+	}
+	switch {
+	case len(rts) > 1:
+		fail("F7:stream-multi-snapshot", fmt.Sprintf("free-running Orchestrate (NumGo=%d, %d concurrent transfers): producers read at different timestamps %v; %d accounts delivered, total %d (one snapshot holds %d)",
+			st.NumGo, commits, sortedTs(rts), keys, total, nAcct*start))
+	case keys != nAcct || total != nAcct*start:
+		fail("C25-race", fmt.Sprintf("one read timestamp %v but %d accounts / total %d delivered (expected %d / %d)", sortedTs(rts), keys, total, nAcct, nAcct*start))
+	}
+}
+
 func sortedTs(m map[uint64]bool) []uint64 {
 	var out []uint64
 	for k := range m {
@@ -1048,7 +1191,7 @@ func (s *stSess) doSwPrepare(w []string, line string, emit func(string, string),
 		// Flatten (level 0 non-empty) runs free compactions: move level 0 down first, one
 		// recorded production compaction at a time
 		for i := 0; i < 8 && len(badger.VerifLevels(mv.db)[0]) > 0; i++ {
-			mv.compact(map[string]string{"this": "0", "id": "0", "adj": "1.5"}, emit, fail)
+			s.compactOp(mv, map[string]string{"this": "0", "id": "0", "adj": "1.5"}, emit, fail)
 		}
 	}
 	sw := mv.db.NewStreamWriter()
@@ -1335,6 +1478,8 @@ func execStreamEng(intents []string, st *Stats) (final, outs, oracle []string) {
 			s.doReopen(line, emit, fail)
 		case "stream":
 			s.doStream(w, line, emit, fail)
+		case "stream-race":
+			s.doStreamRace(w, line, emit, fail)
 		case "backup":
 			s.doBackup(w, line, emit, fail)
 		case "load":
@@ -1608,6 +1753,9 @@ func (g *stGen) genStream() {
 			g.add("stream %s", g.streamParams())
 		}
 		g.build(g.rng.Intn(3))
+	}
+	if !g.managed && g.rng.Intn(4) == 0 {
+		g.add("stream-race numgo=%d seed=%d", pick(g.rng, 8, 16), g.rng.Intn(1000))
 	}
 }
 
